@@ -138,8 +138,8 @@ def _parser(db, chk, enc_rule="C01.R6-encode-agreement", full=True):
         if stt == T.col(B, "stream"):
             continue   # path on which the stream column is absent (error branch) or untouched
         vals = set()
-        if stt[0] == "cases":
-            vals = {v for c, v in stt[1]}
+        if T.as_cases(stt) is not None:
+            vals = {v for c, v in T.as_cases(stt)}
         okst = vals == {("cast", "int", T.col(B, "stream")), T.C(-1)}
         chk.ob("C01.R7-stream-sentinel", f"stream ({n} paths) = int(stream), or the sentinel -1 when it is not a number", okst, where, found=[T.show(v)[:80] for v in vals] or T.show(stt)[:160],
                accepted=["int(stream)", "-1"], why="consumers test stream against -1 to tell host from device rows")
@@ -236,20 +236,38 @@ def _yaml(db, chk):
             chk.ob("C01.R6-arg-specs", f"{os.path.basename(fp)}: column {col} is read from the like-named arg with integer default -1", ok, os.path.relpath(fp, db.repo),
                    found=v, accepted={"name": col, "raw_name": col, "value_type": "Int", "default_value": -1},
                    why="-1 is the sentinel every consumer compares against (stream != -1, correlation != -1)")
-    # the expansion of args uses raw_name / default_value of the same spec
+    # the expansion of args uses raw_name / default_value of the same spec: decided on the evaluated column (whatever helper the expansion lives in)
     m = db.mod(TP)
     f = m.func("_compress_df")
-    lam = [n for n in ast.walk(f) if isinstance(n, ast.Lambda) and "raw_name" in ast.unparse(n)]
-    ok = len(lam) == 1 and ast.unparse(lam[0].body).replace(" ", "") in (
-        "row.get(arg.raw_name,arg.default_value)ifisinstance(row,dict)elsearg.default_value",)
-    tgt = [n for n in ast.walk(f) if isinstance(n, ast.Assign) and any(isinstance(t, ast.Subscript) and ast.unparse(t.slice) == "arg.name" for t in n.targets)]
-    body_ok = False
-    if len(lam) == 1:
-        b = lam[0].body
-        body_ok = isinstance(b, ast.IfExp) and "isinstance(row, dict)" in ast.unparse(b.test) and isinstance(b.body, ast.Call) and ast.unparse(b.body.func).endswith(".get") \
-            and [ast.unparse(a) for a in b.body.args] == ["arg.raw_name", "arg.default_value"] and ast.unparse(b.orelse) == "arg.default_value"
-    chk.ob("C01.R6-arg-specs", "args expansion: column arg.name = args.get(arg.raw_name, arg.default_value), default when args is not a dict", body_ok and len(tgt) == 1, m.loc(f),
-           found=[ast.unparse(l)[:160] for l in lam], accepted="lambda row: row.get(arg.raw_name, arg.default_value) if isinstance(row, dict) else arg.default_value")
+    RAW = ("param", "RAWDF")
+    spec = Obj("spec", attrs={"name": "ARGCOL", "raw_name": "RAW", "default_value": T.P("DEFAULT")})
+
+    def hook(I, name, pos, kw, node):
+        if name.endswith(".get_args"):
+            return [spec]
+        if name.endswith("get_default_cfg"):
+            return Obj("cfg", attrs={"parse_all_args": False})
+        if name == "normalize_gpu_stream_numbers":
+            return None
+        return NotImplemented
+    I = Interp(db, call_hook=hook, max_paths=400, decide=lambda c: (False if "dtype" in T.show(c) else None))
+    runs = I.explore(f"{TP}:_compress_df", lambda I: {"df": Frame(RAW, known=["ph", "cat", "name", "ts", "dur", "args", "index", "pid", "tid"]), "cfg": Obj("cfg", attrs={"parse_all_args": False})})
+    got = set()
+    for r in runs:
+        if r.raised is None and isinstance(r.ret, PyTuple) and isinstance(r.ret.items[0], Frame) and r.ret.items[0].has("ARGCOL"):
+            got.add(r.ret.items[0].col("ARGCOL"))
+    A = T.col(RAW, "args")
+    isd = ("isinstance", A, T.C("dict"))
+    want_forms = [T.ite(isd, ("call", T.show(A) + ".get", T.C("RAW"), T.P("DEFAULT")), T.P("DEFAULT"))]
+    shown = sorted(T.show(g)[:200] for g in got)
+    ok = None
+    if got:
+        ok = all(("isinstance(" in T.show(g) and ".get('RAW', $DEFAULT)" in T.show(g) and T.show(g).count("$DEFAULT") == 2 and g[0] == "ite") for g in got)
+        if not ok and any(T.has_opaque(g) for g in got):
+            ok = None
+    chk.ob("C01.R6-arg-specs", "args expansion: column arg.name = args.get(arg.raw_name, arg.default_value), default when args is not a dict", ok, m.loc(f),
+           found=shown, accepted="ite(isinstance(args, dict), args.get(raw_name, default_value), default_value)",
+           why="`args.get(raw_name) or default` replaces the legitimate values 0 / '' by the default (a kernel on stream 0 becomes a host event)")
 
 
 def _load(db, chk):
